@@ -7,7 +7,7 @@ import sys, os, json, subprocess, shutil, time
 seed = os.path.abspath(sys.argv[1])
 meta_p = os.path.join(seed, "meta.json")
 meta = json.load(open(meta_p))
-BASE = "/tmp/seed-confirm"
+BASE = "/tmp/seed-confirm" + os.environ.get("CONFIRM_SLOT", "")
 WT = os.path.join(BASE, "wt")
 env = dict(os.environ, CARGO_TARGET_DIR=os.path.join(BASE, "target"), CARGO_NET_OFFLINE="true")
 def sh(cmd, cwd=None, timeout=7200):
